@@ -19,9 +19,12 @@ class MachineryError(RuntimeError):
 
 
 def load_findings():
-    if not KF_FILE.exists():
-        return []
-    return json.loads(KF_FILE.read_text())["findings"]
+    out = []
+    if KF_FILE.exists():
+        out += json.loads(KF_FILE.read_text())["findings"]
+    for f in sorted((ROOT / "findings.d").glob("*.json")):      # per-property fragments (merged by hand into KNOWN_FINDINGS.json)
+        out += json.loads(f.read_text())["findings"]
+    return out
 
 
 class Ctx:
